@@ -142,6 +142,9 @@ func (p *parent) thorough() {
 	}
 
 	for _, t := range targets {
+		if t.fuzzExecs == 0 {
+			continue // driven by a plugin process per input: not a fuzz target
+		}
 		n := int(float64(t.fuzzExecs) * execScale)
 		args := []string{"test"}
 		args = append(args, modflag...)
@@ -212,6 +215,10 @@ func (p *parent) thorough() {
 	nSeeds := len(loadSeeds().all)
 	for _, t := range targets {
 		units = append(units, unit{t, job{Kind: "seeds", From: 0, To: nSeeds, Par: 4, NoLimit: true}})
+		if t.name == "PluginReplies" {
+			// the client's WaitTimer goroutine is present in these sessions
+			units = append(units, unit{t, job{Kind: "plug", From: 0, To: len(plugFamily()), Par: 4, NoLimit: true}})
+		}
 		var files []string
 		for _, d := range []string{filepath.Join(cache, "Fuzz"+t.name)} {
 			ents, _ := os.ReadDir(d)
